@@ -82,3 +82,13 @@ func VerifC09CapFields(c Cap) (center Point, radius float64) { return c.center, 
 
 // VerifC09CellFaceSiTi returns the (face, si, ti) of a cell's centre.
 func VerifC09CellFaceSiTi(ci CellID) (int, uint32, uint32) { return ci.faceSiTi() }
+
+// VerifC09PolygonDerived returns the derived state of a Polygon that queries use.
+func VerifC09PolygonDerived(p *Polygon) (subregionBound Rect, numEdges int, hasIndex bool) {
+	return p.subregionBound, p.numEdges, p.index != nil
+}
+
+// VerifC09LoopDerived returns the derived state of a Loop that queries use.
+func VerifC09LoopDerived(l *Loop) (subregionBound Rect, hasIndex bool) {
+	return l.subregionBound, l.index != nil
+}
